@@ -161,132 +161,19 @@ func oracle(s *scen, w *world.World) error {
 	return nil
 }
 
-// ---------------------------------------------------------------------------
-// sites
-
-const H = "http://s.example"
-
-func seedKinds() map[string][]world.Node {
-	return map[string][]world.Node{
-		// value: nodes of the seed part; the page node (Kind html) receives the assets
-		"page":     {{URL: H + "/page", Kind: "html"}},
-		"redir1":   {{URL: H + "/r1", Kind: "redirect", Location: H + "/page"}, {URL: H + "/page", Kind: "html"}},
-		"redir2":   {{URL: H + "/r2", Kind: "redirect", Location: "/r1"}, {URL: H + "/r1", Kind: "redirect", Code: 302, Location: H + "/page"}, {URL: H + "/page", Kind: "html"}},
-		"404":      {{URL: H + "/gone", Kind: "status", Code: 404}},
-		"500":      {{URL: H + "/boom", Kind: "fail5xx"}},
-		"nodot":    {},
-		"excluded": {},
-	}
-}
-
-var seedURL = map[string]string{"page": H + "/page", "redir1": H + "/r1", "redir2": H + "/r2", "404": H + "/gone", "500": H + "/boom",
-	"nodot": "http://nodot/x", "excluded": "http://web.archive.org/web/x"}
-
-// assetKinds: reference text in the page plus the nodes behind it.
-type asset struct {
-	ref   string
-	nodes []world.Node
-}
-
-func assetKinds() map[string]asset {
-	return map[string]asset{
-		"bin":      {H + "/a.png", []world.Node{{URL: H + "/a.png", Kind: "bin"}}},
-		"bin2":     {"/b.png", []world.Node{{URL: H + "/b.png", Kind: "bin"}}},
-		"samepage": {H + "/page", nil},
-		"js":       {"javascript:void(0)", nil},
-		"exhost":   {"http://excluded.example/x.png", nil},
-		"404":      {H + "/missing.png", []world.Node{{URL: H + "/missing.png", Kind: "status", Code: 404}}},
-		"500":      {H + "/boom.png", []world.Node{{URL: H + "/boom.png", Kind: "fail5xx"}}},
-		"redir":    {H + "/ra", []world.Node{{URL: H + "/ra", Kind: "redirect", Location: H + "/ra.png"}, {URL: H + "/ra.png", Kind: "bin"}}},
-		"m3u8":     {H + "/pl.m3u8", []world.Node{{URL: H + "/pl.m3u8", Kind: "m3u8", Refs: []string{"seg0.ts"}}, {URL: H + "/seg0.ts", Kind: "bin"}}},
-		"slash":    {"http://other.example/", nil},
-		"flaky":    {H + "/flaky.png", []world.Node{{URL: H + "/flaky.png", Kind: "flaky", FailN: 1}}},
-		"429":      {H + "/limited.png", []world.Node{{URL: H + "/limited.png", Kind: "status", Code: 429}}},
-	}
-}
-
-func mkSite(name, seedKind string, assets []string) world.SiteDef {
-	d := world.SiteDef{Name: name, Seeds: []string{seedURL[seedKind]}}
-	ak := assetKinds()
-	for _, n := range seedKinds()[seedKind] {
-		if n.Kind == "html" {
-			for _, a := range assets {
-				n.Refs = append(n.Refs, ak[a].ref)
-			}
-		}
-		d.Nodes = append(d.Nodes, n)
-	}
-	have := map[string]bool{}
-	for _, n := range d.Nodes {
-		have[n.URL] = true
-	}
-	for _, a := range assets {
-		for _, n := range ak[a].nodes {
-			if !have[n.URL] {
-				have[n.URL] = true
-				d.Nodes = append(d.Nodes, n)
-			}
-		}
-	}
-	return d
-}
-
-// sweep: every seed kind x every multiset of <=2 asset kinds (assets only matter for seeds that reach the page).
-func sweepSites(tier string) []world.SiteDef {
-	var out []world.SiteDef
-	akeys := []string{"bin", "samepage", "js", "exhost", "404", "500", "redir", "m3u8", "slash", "flaky", "429"}
-	for _, sk := range []string{"404", "500", "nodot", "excluded"} {
-		out = append(out, mkSite("seed="+sk, sk, nil))
-	}
-	for _, sk := range []string{"page", "redir1", "redir2"} {
-		out = append(out, mkSite("seed="+sk+" assets=none", sk, nil))
-		for i, a := range akeys {
-			out = append(out, mkSite("seed="+sk+" assets="+a, sk, []string{a}))
-			for _, b := range akeys[i:] {
-				bb := b
-				if a == b && a == "bin" {
-					bb = "bin" // the same URL twice
-				}
-				out = append(out, mkSite("seed="+sk+" assets="+a+"+"+bb, sk, []string{a, bb}))
-			}
-		}
-	}
-	return out
-}
-
-// depth: two-seed sites chosen so that the seeds collide.
-func depthSites() []scen {
-	ak := assetKinds()
-	page := func(u string, refs ...string) world.Node { return world.Node{URL: u, Kind: "html", Refs: refs} }
-	var out []scen
-	// 1. a shared asset URL
-	out = append(out, scen{Def: world.SiteDef{Name: "two seeds, shared asset", Seeds: []string{H + "/p1", H + "/p2"},
-		Nodes: []world.Node{page(H+"/p1", H+"/a.png", H+"/x1.png"), page(H+"/p2", H+"/a.png"), ak["bin"].nodes[0], {URL: H + "/x1.png", Kind: "bin"}}}})
-	// 2. one seed failing (retry, back-off) while the other fans out
-	out = append(out, scen{Def: world.SiteDef{Name: "two seeds, one failing", Seeds: []string{H + "/boom", H + "/p2"},
-		Nodes: []world.Node{{URL: H + "/boom", Kind: "fail5xx"}, page(H+"/p2", H+"/a.png", H+"/pl.m3u8"), ak["bin"].nodes[0], ak["m3u8"].nodes[0], ak["m3u8"].nodes[1]}}})
-	// 3. a redirect onto the other seed's URL
-	out = append(out, scen{Def: world.SiteDef{Name: "two seeds, redirect onto the other", Seeds: []string{H + "/r", H + "/p2"},
-		Nodes: []world.Node{{URL: H + "/r", Kind: "redirect", Location: H + "/p2"}, page(H+"/p2", H+"/a.png"), ak["bin"].nodes[0]}}})
-	// 4. third seed inserted from a non-initial state (after the first finish)
-	out = append(out, scen{Def: world.SiteDef{Name: "three seeds, third after first finish", Seeds: []string{H + "/p1", H + "/gone", H + "/p3"},
-		Nodes: []world.Node{page(H+"/p1", H+"/a.png"), {URL: H + "/gone", Kind: "status", Code: 404}, page(H+"/p3", H+"/a.png", H+"/b.png"), ak["bin"].nodes[0], ak["bin2"].nodes[0]}},
-		After: map[int]int{2: 1}})
-	return out
-}
-
 func scenarios(tier string) []scen {
 	var out []scen
 	sweepP, depthP := 1, 2
 	if tier == "thorough" {
 		sweepP, depthP = 2, 3
 	}
-	for _, d := range sweepSites(tier) {
+	for _, d := range world.SweepSites(tier) {
 		for _, ca := range [][2]int{{1, 1}, {1, 2}} {
 			out = append(out, scen{Def: d, Opt: world.Options{Workers: ca[0], MaxConcurrentAssets: ca[1], MaxRetry: 1, MaxRedirect: 2}, P: sweepP})
 		}
 	}
-	for _, s := range depthSites() {
+	for _, ds := range world.DepthSites() {
+		s := scen{Def: ds.Def, After: ds.After}
 		for _, ca := range [][2]int{{1, 1}, {2, 1}, {2, 2}} {
 			s2 := s
 			s2.Opt = world.Options{Workers: ca[0], MaxConcurrentAssets: ca[1], MaxRetry: 1, MaxRedirect: 2}
